@@ -183,10 +183,12 @@ fn gen_num(rng: &mut Rng) -> String {
     };
     let mut s = String::new();
     let int = rng.chance(4, 5);
-    if int { s.push_str(&run(rng, 5)); }
+    // (now and then digit runs longer than a machine word holds)
+    let long = rng.chance(1, 8);
+    if int { s.push_str(&run(rng, if long { 24 } else { 5 })); }
     if !int || rng.chance(1, 2) {
         s.push('.');
-        if !int || rng.chance(4, 5) { s.push_str(&run(rng, 5)); }
+        if !int || rng.chance(4, 5) { s.push_str(&run(rng, if long { 26 } else { 5 })); }
     }
     if rng.chance(1, 2) {
         s.push('e');
@@ -197,12 +199,50 @@ fn gen_num(rng: &mut Rng) -> String {
     s
 }
 
+/// a sexagesimal literal from the grammar: d:m or d:m:s[.frac], separators inside the digit runs, minutes / seconds below 60
+/// with or without a leading zero, fractions of 1 to 26 digits (longer than what one machine word holds)
+fn gen_sex(rng: &mut Rng) -> String {
+    let run = |rng: &mut Rng, n: usize| -> String {
+        let mut s = String::new();
+        for k in 0..n {
+            if k > 0 && rng.chance(1, 5) { s.push('_'); }
+            s.push((b'0' + rng.below(10) as u8) as char);
+        }
+        s
+    };
+    let below60 = |rng: &mut Rng| -> String {
+        let v = rng.below(60);
+        if v < 10 && rng.chance(1, 2) { format!("{v}") } else { format!("{v:02}") }
+    };
+    let nd = 1 + rng.below(4);
+    let mut s = run(rng, nd);
+    s.push(':');
+    s.push_str(&below60(rng));
+    if rng.chance(2, 3) {
+        s.push(':');
+        s.push_str(&below60(rng));
+        if rng.chance(2, 3) {
+            s.push('.');
+            let n = match rng.below(4) { 0 => 1 + rng.below(3), 1 => 15 + rng.below(4), 2 => 19 + rng.below(8), _ => 1 + rng.below(26) };
+            // (now and then a fraction that is all zeros but for one digit, so that scaling mistakes show as powers of ten)
+            if rng.chance(1, 3) {
+                let mut f: Vec<char> = "0".repeat(n).chars().collect();
+                f[rng.below(n.min(18))] = (b'1' + rng.below(9) as u8) as char;
+                s.extend(f);
+            } else {
+                s.push_str(&run(rng, n));
+            }
+        }
+    }
+    s
+}
+
 fn gen_ast(rng: &mut Rng, depth: usize) -> Ast {
     let leaf = depth == 0 || rng.chance(1, 3);
     if leaf {
         return match rng.below(8) {
             0 => Ast::Const(*rng.pick(&["pi", "tau", "inf", "nan"])),
-            1 => Ast::Sex(rng.pick(&["12:30", "0:30:30.5", "1_0:05", "8:32:53.2", "359:59:59.999", "1:2:3"]).to_string()),
+            1 => if rng.chance(1, 2) { Ast::Sex(gen_sex(rng)) } else { Ast::Sex(rng.pick(&["12:30", "0:30:30.5", "1_0:05", "8:32:53.2", "359:59:59.999", "1:2:3"]).to_string()) },
             2 | 3 => Ast::Num(gen_num(rng)),
             _ => Ast::Num(rng.pick(&["0", "1", "2", "3", "10", "0.5", ".25", "10.", "1e3", "1e-3", "2.5E+2", "1_000", "1_0.2_5", "1e1_0", "180", "90", "360", "0.1", "0.2", "0.3", "1e308", "5e-324", "123456789.123456789", "3.141592653589793"]).to_string()),
         };
